@@ -411,7 +411,16 @@ func (g *Gen) FindOpts(o *Op) {
 		if g.R.Chance(1, 3) {
 			ord = -1
 		}
-		o.Sort = types.NewMap(S(f), types.NewInt(ord))
+		var dir types.Value = types.NewInt(ord)
+		if g.R.Chance(2, 5) {
+			// the direction is whatever decodes to an int (`types.Unmarshal(o, &order)`, error ignored): other integer
+			// widths, unsigned, floats (a sort specification read by encoding/json carries float64), numeric strings;
+			// operands that do not decode mean ascending; operands that decode to 0 make every pair tie.
+			// Added after the seeded change c10f (only signed-integer kinds were recognised as descending).
+			dir = lib.Pick(g.R, SortDirections())
+			g.hit("find:direction-kind:" + lib.EncodeVal(dir))
+		}
+		o.Sort = types.NewMap(S(f), dir)
 		g.hit("find:sorted")
 	}
 	if g.R.Chance(1, 3) {
@@ -433,6 +442,20 @@ func (g *Gen) FindOpts(o *Op) {
 	if g.R.Chance(1, 20) {
 		o.Skip = lib.Pick(g.R, huge)
 		g.hit("find:huge-skip")
+	}
+}
+
+// SortDirections is the alphabet of sort-direction operands beyond Int(±1).
+func SortDirections() []types.Value {
+	return []types.Value{
+		types.NewInt8(-1), types.NewInt16(2), types.NewInt32(-3), types.NewInt64(-1), types.NewInt64(math.MaxInt64), types.NewInt(0),
+		types.NewUint(1), types.NewUint8(2), types.NewUint64(math.MaxUint64), types.NewUint32(0),
+		types.NewFloat64(-1), types.NewFloat64(1), types.NewFloat64(-2.5), types.NewFloat64(2.5), types.NewFloat64(0),
+		types.NewFloat64(-0.4), types.NewFloat64(-1), types.NewFloat64(-1),
+		types.NewFloat32(-1), types.NewFloat32(2.5), types.NewFloat32(-2.5),
+		types.NewString("-1"), types.NewString("-1"), types.NewString("1"), types.NewString("abc"), types.NewString("-1.5"),
+		types.NewString("0"), types.NewString("+1"), types.NewString("-007"), types.NewString(""),
+		types.True, types.False, nil, types.NewSlice(types.NewInt(-1)),
 	}
 }
 
